@@ -517,7 +517,11 @@ def main_check(prop, plan, tier, seed, level_text='', extra_assumptions=None, re
                 lines.append('VIOLATION property=%s replay=%s' % (prop, cx['replay']))
             elif r['status'] != 'held':
                 inconclusive += 1
+        seen_lines = set()
         for l in lines:
+            if l.startswith('KNOWN-FINDING') and l in seen_lines:
+                continue            # one line per recorded finding, however many confirmation queries reproduce it
+            seen_lines.add(l)
             print(l)
         held = sum(1 for r in results if r['status'].startswith('held'))
         nontrivial = sum(1 for r in results if r.get('witnesses_reached', 0) > 0 and r['status'] != 'inconclusive')
